@@ -30,6 +30,12 @@ CLAIMED["C06"] = (
     "Coq kernel; extraction; harness/C06.cpp + engine.h; hook H1 (integral clock, constant during Execute, time scale 1); threads are println/wait programs; see DESIGN.md 4/C06",
     "DESIGN.md 4 (C06)")
 
+CLAIMED["C20"] = (
+    "Coq proof of the lock protocol of the shared pools for every schedule and thread count, over lock modes regenerated from BlockAlloc.h on every run; ThreadSanitizer runs of N engines on N OS threads",
+    "PARTIAL. Theorem C20_exclusive_protocol_excludes_conflicts: for every lock table in which every writing pool method takes the exclusive mode, every number of threads, every program of pool calls and every schedule, no two threads are inside the process-wide pool at once with one of them writing; C20_current_lock_modes_follow_the_protocol is re-proved against the lock modes extracted from the current BlockAlloc.h (a method that goes back to shared_lock or loses its lock breaks it; C20_shared_mode_allows_conflict shows the reachable conflict). thread_local-ness of the context singleton and interpreter depth is read off the declarations. Everything else (all other shared state, the C++ runtime) is only sampled: N OS threads each drive their own ScriptContext through compile/execute/wait/reset/destroy under ThreadSanitizer and must print what they print alone.",
+    "Coq kernel; the regex translator in props/C20.py; TSan; harness/C20.cpp; a data race outside the modelled pools is found only if TSan observes it in the sampled runs; see DESIGN.md 4/C20",
+    "DESIGN.md 4 (C20)")
+
 NOT_YET = "no model, theorem and correspondence check has been built for this property yet (work in progress; see DESIGN.md 9 for the order of work)"
 
 
